@@ -29,7 +29,7 @@ ASSUMPTIONS = ["detector model: flag and (not old_flag or sid <= old_sid); first
 FLOORS = {"quick": {"messages_judged": 20000, "detections_expected": 3000, "fanout_checks": 3000,
                     "single_key_transitions": 156, "two_key_cases": 3 * 13 * 13 * 24, "random_histories": 100, "burst_cases": 13 * 12 * 12 * 3,
                     "check_received_probe": 20000,
-                    "mesh_scenarios": 100, "mesh_reboot_messages_judged": 10000, "mesh_reboot_detections_expected": 300, "mesh_reboot_fanout_checks": 150}}
+                    "mesh_scenarios": 100, "mesh_reboot_messages_judged": 6000, "mesh_reboot_detections_expected": 180, "mesh_reboot_fanout_checks": 90}}
 # system-level shards: the mesh workload of pv/mesh.py under this property's boundary monitors (reports of other monitors are dropped)
 MESH = {"want": ("reboot",), "claim": ("mesh:reboot-",),
         "quick": (2, 60), "thorough": (16, 1500)}
